@@ -60,6 +60,10 @@ class Contract:
             return bv(2 ** 64 - 1)
         if t.endswith('::MAX') and ('SeqNo' in t or 'u64' in t):
             return bv(2 ** 64 - 1)
+        for nm, val in (('LEVELED_COMPACTION_NAME', 'LeveledCompaction'), ('FIFO_COMPACTION_NAME', 'FifoCompaction')):
+            if t.endswith(nm):
+                o = Obj('str', 'str:' + val, 'str'); o.data['str'] = val
+                return Ref(Cell(o))
         return None
 
     def length_of(self, ex, st, o):
@@ -2250,3 +2254,340 @@ def s_btm_range_any(ex, st, call):
     for s2, _m, _c in states:
         out.append((s2, z3.BoolVal(False)))
     return out
+
+
+# =============================================================================== byte readers over segment buffers (codec round trips)
+class SliceView:
+    """reading position inside a segment buffer (stored in Ref.meta of a `&[u8]`)"""
+    __slots__ = ('pos',)
+
+    def __init__(self, pos):
+        self.pos = pos
+
+    def __deepcopy__(self, memo):
+        return SliceView(self.pos)
+
+
+SEG_NORM = {'le16': 'u16le', 'le32': 'u32le', 'le64': 'u64le', 'be16': 'u16be', 'be32': 'u32be', 'be64': 'u64be'}
+
+
+def norm_segs(segs):
+    out = []
+    for s in segs:
+        k = SEG_NORM.get(s[0], s[0])
+        out.append((k,) + tuple(s[1:]))
+    return out
+
+
+def reader_target(ex, st, r):
+    """(cell holding the &[u8], buffer Obj, position) for a `&mut &[u8]` / `&mut R` reader argument"""
+    if not isinstance(r, Ref):
+        return None
+    inner = r.cell.val
+    if isinstance(inner, Ref):
+        buf = inner.cell.val
+        pos = inner.meta.pos if isinstance(inner.meta, SliceView) else 0
+        if isinstance(buf, Ref):        # &mut &mut &[u8]
+            return reader_target(ex, st, inner)
+        if isinstance(buf, Obj) and 'segs' in buf.data:
+            return r.cell, buf, pos
+    return None
+
+
+def endian_of(call):
+    c = call.callee
+    if 'BigEndian' in c or '::<BE>' in c or 'BE>' in c:
+        return 'be'
+    return 'le'
+
+
+@rule(r'^<.* as ReadBytesExt>::read_(u8|u16|u32|u64|f32|f64|i8)$', prio=0)
+def s_read_int(ex, st, call):
+    tgt = reader_target(ex, st, call.args[0])
+    kind = call.c0.rsplit('_', 1)[-1]
+    if tgt is None:
+        # an I/O reader (file): event with symbolic result / EOF fault
+        w = {'u8': 8, 'u16': 16, 'u32': 32, 'u64': 64, 'f32': 32, 'f64': 64, 'i8': 8}[kind]
+        rd = deref(call.args[0])
+        f = ex.contract.fault(ex, st, 'R_EOF')
+        v = z3.BitVec(f'rd_{kind}!{next(st.fresh)}', w)
+        st.emit(Ev('R_INT', obj=rd if isinstance(rd, Obj) else None, args={'kind': kind}, res=v, fault=f, site=call.site))
+        return ex.mk_result(st, call.dst_ty, f, ok=v)
+    cell, buf, pos = tgt
+    segs = norm_segs(buf.data['segs'])
+    if pos >= len(segs):
+        err = Obj('std::io::Error', 'eof', 'opaque'); err.data['kind'] = 'UnexpectedEof'
+        return ex.mk_enum(call.dst_ty, 'Err', [err])
+    want = kind if kind in ('u8', 'i8') else kind + endian_of(call)
+    sk, sv = segs[pos][0], segs[pos][1]
+    if sk in ('f32le', 'f32be') and want.startswith('f32'):
+        pass
+    elif sk != want:
+        st.emit(Ev('CODEC_MISMATCH', obj=buf, args={'wrote': sk, 'reads': want, 'pos': pos}, site=call.site))
+        from .mirparse import SCALAR_TYS
+        sv = z3.BitVec(f'garbage!{next(st.fresh)}', {'u8': 8, 'i8': 8, 'u16': 16, 'u32': 32, 'u64': 64, 'f32': 32, 'f64': 64}[kind])
+    cell.val = Ref(cell.val.cell, SliceView(pos + 1))
+    if isinstance(sv, int):
+        sv = z3.BitVecVal(sv, 8)
+    return ex.mk_enum(call.dst_ty, 'Ok', [sv])
+
+
+@rule(r'^<.* as WriteBytesExt>::write_(f32|f64)$')
+def s_write_float(ex, st, call):
+    w = deref(call.args[0])
+    kind = call.c0.rsplit('_', 1)[-1]
+    if isinstance(w, Obj):
+        buf_segs(w).append((kind + endian_of(call), call.args[1]))
+        w.kind = 'bytes'
+        return ex.mk_enum(call.dst_ty, 'Ok', [ex.unit()])
+    return NotImplemented
+
+
+@rule(r'^<(lsm_tree::)?CompressionType as (lsm_tree::coding::)?Decode>::decode_from$')
+def s_comp_decode(ex, st, call):
+    tgt = reader_target(ex, st, call.args[0])
+    if tgt is None:
+        return NotImplemented
+    cell, buf, pos = tgt
+    segs = norm_segs(buf.data['segs'])
+    if pos >= len(segs):
+        return ex.mk_enum(call.dst_ty, 'Err', [Obj('lsm_tree::Error', 'eof', 'opaque')])
+    sk, sv = segs[pos][0], segs[pos][1]
+    if sk != 'u8':
+        st.emit(Ev('CODEC_MISMATCH', obj=buf, args={'wrote': sk, 'reads': 'u8(compression tag)', 'pos': pos}, site=call.site))
+        sv = z3.BitVec(f'garbage!{next(st.fresh)}', 8)
+    if isinstance(sv, int):
+        sv = z3.BitVecVal(sv, 8)
+    cell.val = Ref(cell.val.cell, SliceView(pos + 1))
+    ok = z3.Or(sv == 0, sv == 1)
+    e = EnumV(call.dst_ty, z3.If(ok, bv(0), bv(1)), 'ct_res')
+    ct = EnumV('lsm_tree::CompressionType', z3.ZeroExt(56, sv), 'ct')
+    o = Obj('Ok', 'Ok', 'variant'); o.fields[0] = Cell(ct); e.payloads['Ok'] = o
+    return e
+
+
+@rule(r'^<(lsm_tree::)?CompressionType as (lsm_tree::coding::)?Encode>::encode_into_vec$')
+def s_comp_encode_vec(ex, st, call):
+    c = _as_enum(ex, st, deref(call.args[0]))
+    d = bv(c.disc) if isinstance(c.disc, int) else c.disc
+    o = Obj('Vec<u8>', 'ct_bytes', 'bytes'); o.data['segs'] = [('u8', z3.Extract(7, 0, d))]
+    return o
+
+
+# ---- lsm-tree policy newtypes around Vec<T>
+POLICY_TYPES = r'(BlockSizePolicy|CompressionPolicy|FilterPolicy|HashRatioPolicy|PinningPolicy|PartitioningPolicy|RestartIntervalPolicy)'
+
+
+@rule(r'^<(lsm_tree::config::|config::)?' + POLICY_TYPES + r' as Deref>::deref$')
+def s_policy_deref(ex, st, call):
+    p = deref(call.args[0])
+    if isinstance(p, Obj):
+        return Ref(call.args[0].cell if isinstance(call.args[0], Ref) else Cell(p), ex.contract.length_of(ex, st, p))
+    return NotImplemented
+
+
+@rule(r'^(lsm_tree::config::|config::)?' + POLICY_TYPES + r'::(new|all)$')
+def s_policy_new(ex, st, call):
+    v = deref(call.args[0])
+    kind = call.c0.rsplit('::', 1)[-1]
+    o = Obj(call.dst_ty, 'policy', 'seq')
+    if kind == 'all':
+        o.data['items'] = [Cell(call.args[0])]
+    elif isinstance(v, Obj) and 'items' in v.data:
+        o.data['items'] = list(v.data['items'])
+    elif isinstance(v, Obj) and v.kind == 'array' and v.data.get('len') is not None:
+        o.data['items'] = [v.fields[('i', i)] for i in range(v.data['len'])]
+    elif isinstance(v, Obj) and 'segs' in v.data and all(s[0] == 'u8' for s in v.data['segs']):
+        o.data['items'] = [Cell(z3.BitVecVal(s[1], 8) if isinstance(s[1], int) else s[1]) for s in v.data['segs']]
+    else:
+        return NotImplemented
+    return o
+
+
+@rule(r'^<(\[u8; \d+\]|Vec<u8>|&\[u8\]|\[u8\]|&\[u8; \d+\]) as Into<(lsm_tree::)?(Slice|UserValue|UserKey)>>::into$',
+      r'^<(lsm_tree::)?Slice as From<(\[u8; \d+\]|Vec<u8>|&\[u8\]|&\[u8; \d+\])>>::from$', prio=1)
+def s_bytes_into_slice(ex, st, call):
+    v = deref(call.args[0])
+    if not isinstance(v, Obj):
+        return NotImplemented
+    o = Obj('lsm_tree::Slice', v.name, 'bytes')
+    o.data = dict(v.data)
+    if 'segs' not in o.data:
+        if v.kind == 'array' and v.data.get('len') is not None:
+            o.data['segs'] = [('u8', v.fields[('i', i)].val) for i in range(v.data['len'])]
+        else:
+            o.data['segs'] = [('obj', v)]
+    o.data['cid'] = cid(v)
+    return o
+
+
+@rule(r'^<(lsm_tree::)?Slice as PartialEq<\[u8; \d+\]>>::(eq|ne)$', r'^<(lsm_tree::)?Slice as PartialEq<&?\[u8(; \d+)?\]>>::(eq|ne)$', prio=1)
+def s_slice_eq_array(ex, st, call):
+    a = deref(call.args[0]); b = deref(call.args[1])
+    if isinstance(a, Obj) and 'segs' in a.data and isinstance(b, Obj) and b.kind == 'array' and b.data.get('len') is not None:
+        segs = norm_segs(a.data['segs'])
+        n = b.data['len']
+        if len(segs) == n and all(s[0] == 'u8' for s in segs):
+            eq = z3.And(*[(z3.BitVecVal(s[1], 8) if isinstance(s[1], int) else s[1]) == b.fields[('i', i)].val for i, s in enumerate(segs)])
+        else:
+            st.emit(Ev('CODEC_MISMATCH', obj=a, args={'wrote': [s[0] for s in segs], 'reads': f'[u8; {n}] comparison'}, site=call.site))
+            eq = z3.Bool(f'cmp!{next(st.fresh)}')
+        return eq if call.c0.endswith('eq') else z3.Not(eq)
+    return NotImplemented
+
+
+@rule(r'^<(lsm_tree::)?Slice as Index<RangeFull>>::index$', r'^<(lsm_tree::)?Slice as Deref>::deref$', prio=1)
+def s_slice_full_index(ex, st, call):
+    a = call.args[0]
+    if isinstance(a, Ref):
+        return Ref(a.cell, SliceView(0)) if isinstance(deref(a), Obj) and 'segs' in deref(a).data else a
+    return NotImplemented
+
+
+@rule(r'^<(std::ops::)?Range<(u8|u16|u32|u64|usize)> as Iterator>::next$', r'^<(std::ops::)?Range<(u8|u16|u32|u64|usize)> as IntoIterator>::into_iter$', prio=1)
+def s_range_iter(ex, st, call):
+    if call.c0.endswith('into_iter'):
+        return call.args[0]
+    r = deref(call.args[0])
+    if not isinstance(r, Obj) or 0 not in r.fields or 1 not in r.fields:
+        return NotImplemented
+    lo, hi = r.fields[0].val, r.fields[1].val
+    if not (z3.is_bv(lo) and z3.is_bv(hi)):
+        return NotImplemented
+    out = []
+    for s2, more, kept in fork_cond(ex, st, z3.ULT(lo, hi), [r]):
+        r2 = kept[0]
+        if more:
+            cur = r2.fields[0].val
+            r2.fields[0].val = z3.simplify(cur + 1)
+            out.append((s2, ex.mk_enum(call.dst_ty, 'Some', [cur])))
+        else:
+            out.append((s2, ex.mk_enum(call.dst_ty, 'None')))
+    return out
+
+
+# ---- `vec![a, b, ..]` lowering: Box::new_uninit + array write through the raw pointer + box_assume_init_into_vec_unsafe
+@rule(r'^Box::new_uninit$')
+def s_box_new_uninit(ex, st, call):
+    return Obj(call.dst_ty, 'box_uninit', 'struct')
+
+
+@rule(r'^(std::boxed::)?box_assume_init_into_vec_unsafe$')
+def s_box_into_vec(ex, st, call):
+    b = call.args[0]
+    try:
+        p = b.fields[0].val.fields[0].val            # Box.0 (Unique) .0 (NonNull)
+        m = p.fields['*'].val                        # pointee: MaybeUninit<[T; N]>
+        arr = m.fields[1].val.fields[0].val.fields[0].val
+    except (AttributeError, KeyError):
+        return NotImplemented
+    if isinstance(arr, Obj) and arr.data.get('len') is not None:
+        v = Obj(call.dst_ty, 'vec', 'seq')
+        v.data['items'] = [arr.fields[('i', i)] for i in range(arr.data['len'])]
+        return v
+    return NotImplemented
+
+
+@rule(r'^<Vec<.*> as Extend<.*>>::extend$')
+def s_vec_extend(ex, st, call):
+    v = deref(call.args[0]); src = deref(call.args[1])
+    if isinstance(v, Obj) and 'items' in v.data and isinstance(src, Obj):
+        if src.kind == 'array' and src.data.get('len') is not None:
+            v.data['items'].extend(src.fields[('i', i)] for i in range(src.data['len']))
+            return ex.unit()
+        if 'items' in src.data and src.kind != 'iter':
+            v.data['items'].extend(src.data['items'])
+            return ex.unit()
+        if src.kind == 'iter' and seq_items(src.data.get('seq')) is not None and src.data.get('map') is None:
+            its = seq_items(src.data['seq'])
+            v.data['items'].extend(its[src.data['pos']:src.data['end']])
+            return ex.unit()
+        if src.kind == 'iter' and seq_items(src.data.get('seq')) is not None and src.data.get('map') is not None:
+            its = seq_items(src.data['seq'])[src.data['pos']:src.data['end']]
+            cur = [(st, v, src)]
+            for i in range(len(its)):
+                nxt = []
+                for s2, v2, src2 in cur:
+                    if s2.status != 'running':
+                        nxt.append((s2, v2, src2)); continue
+                    item = seq_items(src2.data['seq'])[src2.data['pos'] + i]
+                    arg = Ref(item) if src2.data.get('by_ref') else item.val
+                    holder = Obj('', 'h'); holder.fields[0] = Cell(v2); holder.fields[1] = Cell(src2)
+                    s2.globals['__ext'] = holder
+                    for s3, r in ex.call_closure(s2, src2.data['map'], [arg]):
+                        h3 = s3.globals.pop('__ext', None)
+                        if s3.status != 'running' or h3 is None:
+                            nxt.append((s3, None, None)); continue
+                        h3.fields[0].val.data['items'].append(Cell(r))
+                        nxt.append((s3, h3.fields[0].val, h3.fields[1].val))
+                cur = nxt
+            return [(s2, ex.unit() if s2.status == 'running' else None) for s2, _v, _s in cur]
+        st.emit(Ev('VEC_EXTEND_UNKNOWN', obj=v, args={'src': src}, site=call.site))
+        v.data['extended_unknown'] = True
+        return ex.unit()
+    return NotImplemented
+
+
+@rule(r'^core::f32::<impl f32>::to_le_bytes$', r'^core::f64::<impl f64>::to_le_bytes$')
+def s_float_to_le(ex, st, call):
+    o = Obj(call.dst_ty, 'bytes_of', 'bytes')
+    o.data['segs'] = [('f32le' if 'f32' in call.c0 else 'f64le', call.args[0])]
+    o.data['len'] = 4 if 'f32' in call.c0 else 8
+    return o
+
+
+@rule(r'^<str as PartialEq>::(eq|ne)$', r'^<&str as PartialEq>::(eq|ne)$', r'^<str as PartialEq<str>>::(eq|ne)$')
+def s_str_eq(ex, st, call):
+    a, b = deref(call.args[0]), deref(call.args[1])
+    sa = a.data.get('str') if isinstance(a, Obj) else None
+    sb = b.data.get('str') if isinstance(b, Obj) else None
+    if sa is not None and sb is not None:
+        r = z3.BoolVal(sa == sb)
+        return r if call.c0.endswith('eq') else z3.Not(r)
+    return NotImplemented
+
+
+@rule(r'^(std::str::|core::str::)?from_utf8$', r'^core::str::converts::from_utf8$')
+def s_from_utf8(ex, st, call):
+    a = deref(call.args[0])
+    if isinstance(a, Obj) and ('str' in a.data):
+        return ex.mk_enum(call.dst_ty, 'Ok', [Ref(Cell(a))])
+    if isinstance(a, Obj) and 'segs' in a.data and len(a.data['segs']) == 1 and a.data['segs'][0][0] == 'obj' and 'str' in a.data['segs'][0][1].data:
+        return ex.mk_enum(call.dst_ty, 'Ok', [Ref(Cell(a.data['segs'][0][1]))])
+    return NotImplemented
+
+
+@rule(r'^Option::transpose$')
+def s_opt_transpose(ex, st, call):
+    o = _as_enum(ex, st, call.args[0])
+    if not isinstance(o, EnumV):
+        return NotImplemented
+    out = []
+    for s2, some, kept in fork_cond(ex, st, _disc_is(o, 1), [o]):
+        if not some:
+            out.append((s2, ex.mk_enum(call.dst_ty, 'Ok', [ex.mk_enum('Option<T>', 'None')])))
+            continue
+        r = _as_enum(ex, s2, _payload(ex, s2, kept[0], 'Some'))
+        for s3, ok, kept3 in fork_cond(ex, s2, _disc_is(r, 0), [r]):
+            if ok:
+                out.append((s3, ex.mk_enum(call.dst_ty, 'Ok', [ex.mk_enum('Option<T>', 'Some', [_payload(ex, s3, kept3[0], 'Ok')])])))
+            else:
+                out.append((s3, ex.mk_enum(call.dst_ty, 'Err', [_payload(ex, s3, kept3[0], 'Err')])))
+    return out
+
+
+@rule(r'^<.* as Clone>::clone$', prio=-2)
+def s_generic_clone(ex, st, call):
+    """clone of an environment value we know nothing about: a copy that keeps the content identity"""
+    fn, _ = ex.resolve(call.callee, call.frame)
+    if fn is not None:
+        return NotImplemented
+    a = deref(call.args[0])
+    if isinstance(a, Obj):
+        n = Obj(a.ty, a.name + "'", a.kind)
+        n.data = dict(a.data); n.data['cid'] = cid(a)
+        n.fields = dict(a.fields) if a.kind in ('seq',) else {}
+        return n
+    if isinstance(a, EnumV) or z3.is_expr(a):
+        return a
+    return NotImplemented
